@@ -358,8 +358,9 @@ def rule_l(repo, chk):
     chk.floor('C07.l', len(dels), 1, 'changes[leaf] = "" in inline')
     for d in dels:
         leaf = norm(d.targets[0].slice)
-        w = gate(f, d, lambda e, pol: pol and isinstance(e, ast.Compare) and isinstance(e.ops[0], ast.Eq) and norm(e.left).startswith('%s.prefix.strip(' % leaf)
-                 and isinstance(e.comparators[0], ast.Constant) and e.comparators[0].value == '')
+        w = gate(f, d, lambda e, pol: (pol and isinstance(e, ast.Compare) and isinstance(e.ops[0], ast.Eq) and norm(e.left).startswith('%s.prefix.strip(' % leaf)
+                                       and isinstance(e.comparators[0], ast.Constant) and e.comparators[0].value == '')
+                 or ((not pol) and isinstance(e, ast.Call) and norm(e).startswith('%s.prefix.strip(' % leaf)))     # `not leaf.prefix.strip(..)`
         chk.ob('C07.l', w is None, d, '`%s` is deleted only when its prefix is blank (no comment is lost)' % leaf, w or '')
 
 
